@@ -715,6 +715,9 @@ class Exec:
             bind = self.h.trait_binds.get((tys, simple_name(tr) if tr else None, method))
             if bind is not None: return bind
             tt = ty.strip()
+            if tr and simple_name(tr) in ('Iterator', 'DoubleEndedIterator') and re.match(r'(std::boxed::)?Box<dyn (std::iter::)?Iterator<', tt):
+                mdl = models.lookup(callee)
+                if mdl is not None: return mdl
             if tr and (re.fullmatch(r'[A-Z]\w?|Self', tt) or tt.startswith('<') or tt.startswith('dyn ') or tt.startswith('Box<dyn') or tt.startswith('std::boxed::Box<dyn')):
                 return _dynamic_dispatch(self, simple_name(tr), method, callee)
             infos = prog.method_info(simple_name(tr) if tr else None, tys, method)
@@ -843,6 +846,7 @@ def _dynamic_dispatch(ex0, trait, method, callee, infos=None):
             if isinstance(a0, VecV): return SeqIter(list(a0.items))
             if isinstance(a0, Ref) and isinstance(a0.get(), VecV): return SeqIter([Ref(a0.get().items, i) for i in range(len(a0.get().items))])
             if isinstance(a0, SliceV): return SeqIter([Ref(a0.vec.items, i) for i in range(a0.lo, a0.hi)])
+            if isinstance(recv, BoxV) and 'dyn' in callee and 'Iterator<' in callee: return args[0]
             tyx = getattr(recv, 'ty', None) or getattr(recv, 'rust_type', None)
             if tyx and (tyx in ('SeqIter', 'Chars') or ex.prog.method_info('Iterator', simple_name(tyx), 'next')): return args[0]
         if trait in ('Fn', 'FnMut', 'FnOnce'):
